@@ -280,7 +280,15 @@ func c16SchedEqual(a, b []*Schedule) bool {
 func c16SchedString(s []*Schedule) string {
 	parts := make([]string, len(s))
 	for i := range s {
-		parts[i] = fmt.Sprintf("%+v", *s[i])
+		p := "{weeks:"
+		for _, w := range s[i].WeekSpans {
+			p += fmt.Sprintf(" %v%d-%v%d", w.Start.Weekday.String()[:3], w.Start.Pos, w.End.Weekday.String()[:3], w.End.Pos)
+		}
+		p += " clocks:"
+		for _, c := range s[i].ClockSpans {
+			p += fmt.Sprintf(" %d:%02d-%d:%02d/split=%d/spread=%v", c.Start.Hour, c.Start.Minute, c.End.Hour, c.End.Minute, c.Split, c.Spread)
+		}
+		parts[i] = p + "}"
 	}
 	return fmt.Sprint(parts)
 }
